@@ -798,11 +798,25 @@ pub fn validate_abnf(abnf: &str, target: &str) -> Result<(), String> {
     let pairs = pest_meta::parser::parse(pest_meta::parser::Rule::grammar_rules, &pest)
       .map_err(|e| e.to_string())?;
 
-    let ast = pest_meta::parser::consume_rules(pairs).unwrap();
+    // pest_vm panics on undefined rules and consume_rules fails on left
+    // recursion, so the converted grammar is validated before it is run
+    let join = |errors: Vec<pest::error::Error<pest_meta::parser::Rule>>| {
+      errors
+        .iter()
+        .map(|e| e.to_string())
+        .collect::<Vec<_>>()
+        .join("\n")
+    };
+    pest_meta::validator::validate_pairs(pairs.clone()).map_err(join)?;
+    let ast = pest_meta::parser::consume_rules(pairs).map_err(join)?;
+
+    let rule = rule.replace('-', "_");
+    if !ast.iter().any(|r| r.name == rule) {
+      return Err(format!("rule {} is undefined", rule));
+    }
 
     let vm = pest_vm::Vm::new(pest_meta::optimizer::optimize(ast));
 
-    let rule = rule.replace('-', "_");
     let _ = vm.parse(&rule, target).map_err(|e| e.to_string())?;
   }
 
